@@ -19,6 +19,12 @@ Notation S2C := (LoopRefine.S2C cf).
 Notation wf_s := (LoopRefine.wf_s cf).
 Notation echo_reply := (LoopRefine.echo_reply cf).
 
+Definition kraw (c : N * ckind) : Prop := exists k, snd c = KRaw k.
+
+(* the ids of the callers that must be waiting, oldest first *)
+Definition ids_out (x : xsys) : list N :=
+  match x_pt x with PWait id => [id] | PCancel q => [q_id q] | _ => [] end ++ map q_id (x_queue x).
+
 (* the invariant of the draining phase: the stream has ended ([x_eof]) or every read fails ([x_rerr]); what is
    buffered or still in the transport is a prefix of the encodings of the responses [rs] *)
 Record DInv (x : xsys) (rs : list sresp) : Prop := mkDInv {
@@ -31,7 +37,8 @@ Record DInv (x : xsys) (rs : list sresp) : Prop := mkDInv {
   d_wp : x_wp x = false;
   d_wh : x_wh x = [];
   d_evq : x_evq x = false;
-  d_callers : x_callers x = callers_for (x_pt x) (x_queue x);
+  d_ids : map fst (x_callers x) = ids_out x;
+  d_kinds : Forall kraw (x_callers x);
   d_exited : x_pt x = PExited -> x_queue x = [];
   d_s2c_wf : Forall wf_s rs;
   d_s2c : S2C (x_bst x) (x_buf x) (x_inbox x) (x_s2c x) rs
@@ -46,7 +53,8 @@ Definition ids (g : seg) (x : xsys) : list N := map fst (g_res g) ++ map fst (x_
 
 (* ---------- the end of the stream at a receive ---------- *)
 
-Definition ending (e : rres) : Prop := e = RClean \/ exists pe, e = RErr pe.
+(* how a receive ends once the input is dead: a clean end only when reads do not fail *)
+Definition ending (x : xsys) (e : rres) : Prop := (e = RClean /\ x_rerr x = false) \/ exists pe, e = RErr pe.
 
 Lemma s2c_regroup st buf inbox wire rs : S2C st buf [] (inbox ++ wire) rs -> S2C st buf inbox wire rs.
 Proof. intros [done [P E]]. exists done. split; [exact P|]. cbn [app] in E. exact E. Qed.
@@ -56,7 +64,7 @@ Proof. intros [done [P E]]. exists done. split; [exact P|]. cbn [app]. exact E. 
 
 Lemma try_receive_eof x rs : DInv x rs ->
   exists st' rest left,
-    (exists e, try_receive x = (Some e, set_conn x rest st' left) /\ ending e /\
+    (exists e, try_receive x = (Some e, set_conn x rest st' left) /\ ending x e /\
                S2C st' rest left (x_s2c x) rs) \/
     (exists r1 rs', rs = r1 :: rs' /\
        try_receive x = (Some (RResp (resp_of echo_reply r1)), set_conn x rest st' left) /\
@@ -69,7 +77,7 @@ Proof.
     exists st', rest, []. destruct v as [r| |].
     + right. destruct RS as [r1 [rs' [E1 [E2 E3]]]]. exists r1, rs'. subst r. auto.
     + left. destruct (in_progress st' || negb (beq rest [])); eexists; (split; [reflexivity|]); split; auto;
-        [right; eexists; reflexivity|left; reflexivity].
+        [right; eexists; reflexivity|left; auto].
     + contradiction.
   - pose proof (recv_sim cf _ _ _ _ _ (d_s2c_wf _ _ D) (s2c_group _ _ _ _ _ (d_s2c _ _ D))) as RS.
     destruct (bparse_all (x_bst x) (x_buf x ++ [])) as [[st' rest] v].
@@ -84,75 +92,104 @@ Qed.
 
 Definition closed_res (q : request) : N * bytes := (q_id q, show_cmd_result CRClosed).
 
-Lemma drop_queue_spec : forall Q x g, x_callers x = map ent Q ->
-  let '(x', g') := drop_queue x g Q in
-  x_callers x' = [] /\ g_res g' = g_res g ++ map closed_res Q /\ g_ev g' = g_ev g /\ g_panic g' = g_panic g /\
-  x_pt x' = x_pt x /\ x_queue x' = x_queue x.
-Proof.
-  induction Q as [|q Q IH]; intros x g EC; cbn [drop_queue].
-  - cbn. rewrite app_nil_r. repeat split; auto.
-  - rewrite EC. cbn [map ent find_caller fst]. unfold ent at 1. cbn [find_caller]. rewrite N.eqb_refl.
-    cbn [caller_result]. rewrite EC. cbn [map remove_caller]. unfold ent at 1. cbn [remove_caller]. rewrite N.eqb_refl.
-    specialize (IH (set_qc x (x_queue x) (map ent Q)) (add_res g (q_id q) (show_cmd_result CRClosed))).
-    xsimp. specialize (IH eq_refl).
-    destruct (drop_queue _ _ Q) as [x' g']. destruct IH as [A [B [C [D [E F]]]]].
-    split; [exact A|]. split; [rewrite B, <- app_assoc; reflexivity|]. auto.
-Qed.
-
 Definition add_closed (g : seg) (Q : list request) : seg :=
   mkSeg (g_w g) (g_conn g) (g_res g ++ map closed_res Q) (g_ev g) (g_panic g).
 
 Lemma set_qc_twice x a c a' c' : set_qc (set_qc x a c) a' c' = set_qc x a' c'.
 Proof. reflexivity. Qed.
 
-Lemma drop_queue_full : forall Q x g, x_callers x = map ent Q ->
+Lemma callers_head cs id rest : map fst cs = id :: rest -> Forall kraw cs ->
+  exists k cs', cs = (id, KRaw k) :: cs' /\ map fst cs' = rest /\ Forall kraw cs'.
+Proof.
+  intros E F. destruct cs as [|[cid ck] cs']; [discriminate|]. cbn in E. injection E as -> E.
+  pose proof (Forall_inv F) as [k K]. cbn in K. subst ck. exists k, cs'. split; [reflexivity|]. split; [exact E|exact (Forall_inv_tail F)].
+Qed.
+
+Lemma drop_queue_full : forall Q x g, map fst (x_callers x) = map q_id Q -> Forall kraw (x_callers x) ->
   drop_queue x g Q = (set_qc x (x_queue x) [], add_closed g Q).
 Proof.
-  induction Q as [|q Q IH]; intros x g EC; cbn [drop_queue].
+  induction Q as [|q Q IH]; intros x g EC FK; cbn [drop_queue].
   - unfold add_closed. cbn [map]. rewrite app_nil_r. destruct g. f_equal.
-    destruct x; cbn in *. subst. reflexivity.
-  - rewrite EC. cbn [map]. unfold ent at 1. cbn [find_caller]. rewrite N.eqb_refl.
-    cbn [caller_result]. rewrite EC. cbn [map]. unfold ent at 1. cbn [remove_caller]. rewrite N.eqb_refl.
-    rewrite IH by reflexivity. xsimp. rewrite set_qc_twice. f_equal.
+    destruct (x_callers x) eqn:EX; [|discriminate]. destruct x; cbn in *. subst. reflexivity.
+  - cbn [map] in EC. destruct (callers_head _ _ _ EC FK) as [k [cs [E1 [E2 E3]]]].
+    rewrite E1. cbn [find_caller]. rewrite N.eqb_refl. cbn [caller_result]. rewrite E1. cbn [remove_caller]. rewrite N.eqb_refl.
+    rewrite IH by (xsimp; assumption). xsimp. rewrite set_qc_twice. f_equal.
     unfold add_closed, add_res. cbn. rewrite <- app_assoc. reflexivity.
 Qed.
 
-Lemma on_exit_exited x g : x_pt x = PExited -> x_callers x = map ent (x_queue x) ->
+Lemma on_exit_exited x g : x_pt x = PExited -> map fst (x_callers x) = map q_id (x_queue x) -> Forall kraw (x_callers x) ->
   on_exit x g = (set_qc x [] [], add_closed g (x_queue x)).
 Proof.
-  intros EP EC. unfold on_exit. rewrite EP. rewrite drop_queue_full by (xsimp; exact EC). reflexivity.
+  intros EP EC FK. unfold on_exit. rewrite EP. rewrite drop_queue_full by (xsimp; assumption). reflexivity.
 Qed.
 
 Lemma on_exit_alive x g : x_pt x <> PExited -> on_exit x g = (x, g).
 Proof. intros NE. unfold on_exit. destruct (x_pt x); try reflexivity. congruence. Qed.
 
+(* ---------- what is reported when the loop leaves ---------- *)
+
+Definition is_closed_ev (t : bytes) : Prop := exists k, t = b "ev:closed(" ++ show_closekind k ++ b ")".
+
+(* the failure reached somebody: a closing event on the event stream, or a protocol error handed to a caller *)
+Definition reported (g : seg) : Prop :=
+  (exists t, In t (g_ev g) /\ is_closed_ev t) \/ (exists id pe, In (id, show_cmd_result (CRProto pe)) (g_res g)).
+
+Definition grows (g g' : seg) : Prop :=
+  (forall t, In t (g_ev g) -> In t (g_ev g')) /\ (forall r, In r (g_res g) -> In r (g_res g')).
+
+Lemma reported_grows g g' : grows g g' -> reported g -> reported g'.
+Proof.
+  intros [GE GR] [[t [I C]]|[id [pe I]]]; [left; exists t; auto|right; exists id, pe; auto].
+Qed.
+
+Lemma grows_trans g1 g2 g3 : grows g1 g2 -> grows g2 g3 -> grows g1 g3.
+Proof. intros [A B] [C D]. split; auto. Qed.
+
+Lemma grows_refl g : grows g g.
+Proof. split; auto. Qed.
+
+(* one resumption: the invariant, the measure, the accounting of callers — and what it reports *)
 Definition dpost (x : xsys) (rs : list sresp) (g : seg) (x' : xsys) (g' : seg) : Prop :=
-  exists rs', DInv x' rs' /\ (dmu x' rs' < dmu x rs)%nat /\ ids g' x' = ids g x /\ g_panic g' = g_panic g.
+  (exists rs', DInv x' rs' /\ (dmu x' rs' < dmu x rs)%nat) /\ ids g' x' = ids g x /\ g_panic g' = g_panic g /\
+  grows g g' /\ x_rerr x' = x_rerr x /\
+  (x_rerr x = true -> x_pt x <> PExited -> x_pt x' = PExited -> reported g').
 
 Ltac destr_dinv D :=
-  destruct D as [Dh Dclient Dspawned Ddead Dwfail Dhandle Dwp Dwh Devq Dcallers Dexited Ds2cwf Ds2c].
+  destruct D as [Dh Dclient Dspawned Ddead Dwfail Dhandle Dwp Dwh Devq Dids Dkinds Dexited Ds2cwf Ds2c].
+
+Ltac grows_tac :=
+  split; intros ? HIn; unfold add_closed, ev_seg, add_ev, add_res, add_w in *; cbn [g_ev g_res] in *; rewrite ?in_app_iff; solve [auto].
+
+Ltac not_exit := let EX := fresh "EX" in intros _ _ EX; xsimp; try discriminate EX.
+
+Ltac by_event k :=
+  intros _ _ _; left; eexists; split; [unfold add_closed, add_ev, add_res; cbn [g_ev]; rewrite ?in_app_iff; right; left; reflexivity | exists k; reflexivity].
+
+Ltac by_result :=
+  intros _ _ _; right; eexists; eexists; unfold add_closed, add_res; cbn [g_res]; rewrite !in_app_iff; left; right; left; reflexivity.
+
+(* the common end of every case: the new state and segment are explicit *)
+Ltac finish rs' :=
+  eexists; eexists; split; [reflexivity|]; unfold dpost; split; [exists rs'; split|split; [|split; [|split; [|split]]]].
 
 (* the stream ends while the loop idles: it leaves, every queued request is dropped *)
 Lemma drain_idle_end x rs g st' buf' left e :
-  DInv x rs -> x_pt x = PIdle -> try_receive x = (Some e, set_conn x buf' st' left) -> ending e ->
+  DInv x rs -> x_pt x = PIdle -> try_receive x = (Some e, set_conn x buf' st' left) -> ending x e ->
   S2C st' buf' left (x_s2c x) rs ->
   exists x' g', xstep x g = Some (x', g') /\ dpost x rs g x' g'.
 Proof.
   intros D EP TR EE SC. pose proof D as D'. destr_dinv D'.
+  assert (EI : map fst (x_callers x) = map q_id (x_queue x)) by (rewrite Dids; unfold ids_out; rewrite EP; reflexivity).
   unfold xstep, client_event. rewrite EP. cbn [wants_recv wants_cmd]. rewrite TR. xsimp. rewrite Dwfail, EP.
-  destruct EE as [-> | [pe ->]]; cbn [cstep route_all route]; xsimp; rewrite ?Devq.
-  - rewrite on_exit_exited by (xsimp; first [reflexivity|rewrite Dcallers, EP; reflexivity]). xsimp.
-    eexists. eexists. split; [reflexivity|]. exists rs. split; [|split; [|split]].
-    + constructor; xsimp; try assumption; try reflexivity.
-    + unfold dmu. xsimp. rewrite EP. cbn. lia.
-    + unfold ids, add_closed. xsimp. rewrite Dcallers, EP. cbn [callers_for held app]. rewrite map_app, !map_map, app_nil_r. reflexivity.
-    + reflexivity.
-  - rewrite on_exit_exited by (xsimp; first [reflexivity|rewrite Dcallers, EP; reflexivity]). xsimp.
-    eexists. eexists. split; [reflexivity|]. exists rs. split; [|split; [|split]].
-    + constructor; xsimp; try assumption; try reflexivity.
-    + unfold dmu. xsimp. rewrite EP. cbn. lia.
-    + unfold ids, add_closed. xsimp. rewrite Dcallers, EP. cbn [callers_for held app]. rewrite map_app, !map_map, app_nil_r. reflexivity.
-    + reflexivity.
+  destruct EE as [[-> NR] | [pe ->]]; cbn [cstep route_all route]; xsimp; rewrite ?Devq;
+    (rewrite on_exit_exited by (xsimp; first [reflexivity|assumption])); xsimp; finish rs.
+  all: try (match goal with |- DInv _ _ => constructor; xsimp; try assumption; try reflexivity; try (constructor; fail) end).
+  all: try (unfold dmu; xsimp; rewrite EP; cbn; lia).
+  all: try (unfold ids, add_closed, add_ev; xsimp; rewrite EI, map_app, !map_map, app_nil_r; reflexivity).
+  all: try (match goal with |- @eq _ _ _ => reflexivity end).
+  all: try (match goal with |- grows _ _ => grows_tac end).
+  all: try (intros R _ _; rewrite R in NR; discriminate NR).
+  all: try by_event (CKProto pe).
 Qed.
 
 (* a well-formed reply has a first frame or is an error *)
@@ -162,14 +199,23 @@ Lemma single_some r1 : wf_s r1 ->
 Proof.
   destruct r1 as [ns|u]; intros W.
   - left. eexists. reflexivity.
-  - cbn [LoopRefine.wf_s] in W. destruct (echo_line_parts cf _ W) as [_ [_ [_ [_ [WF _]]]]].
-    cbn [resp_of]. unfold LoopRefine.echo_reply. set (r := reply_of_line cf (removelast u)) in *.
-    unfold wf_resp in WF. apply Bool.andb_true_iff in WF. destruct WF as [WF _].
-    apply Bool.andb_true_iff in WF. destruct WF as [SHP _].
-    unfold wf_shape, aresp_of in SHP. cbn [a_form a_error a_frames] in SHP. rewrite map_length in SHP.
-    unfold single_frame. destruct (r_error r) as [e|].
-    + apply Nat.eqb_eq in SHP. destruct (r_frames r); [right; eexists; reflexivity|discriminate].
-    + apply Nat.eqb_eq in SHP. destruct (r_frames r) as [|f fs]; [discriminate|left; eexists; reflexivity].
+  - cbn [LoopRefine.wf_s] in W. cbn [resp_of]. unfold LoopRefine.echo_reply.
+    destruct (req_good_cases cf u W) as [[EL [ls [EU [ELL G]]]]|[EL [l [EU [ERL E0]]]]]; rewrite EL.
+    + rewrite ELL. destruct (list_good_parts cf ls G) as [_ [_ [WF _]]].
+      set (r := reply_of_list cf ls) in *.
+      unfold single_frame. destruct (r_frames r) as [|f fs] eqn:EF; [|left; eexists; reflexivity].
+      destruct (r_error r) as [e|] eqn:EE; [right; eexists; reflexivity|]. exfalso.
+      unfold wf_resp in WF. apply Bool.andb_true_iff in WF. destruct WF as [WF _].
+      apply Bool.andb_true_iff in WF. destruct WF as [SHP _].
+      unfold wf_shape, aresp_of_list in SHP. cbn [a_form a_error a_frames] in SHP. rewrite EE, EF in SHP. discriminate SHP.
+    + rewrite ERL. destruct (echo_line_parts cf l E0) as [_ [_ [_ [_ [WF _]]]]].
+      set (r := reply_of_line cf l) in *.
+      unfold wf_resp in WF. apply Bool.andb_true_iff in WF. destruct WF as [WF _].
+      apply Bool.andb_true_iff in WF. destruct WF as [SHP _].
+      unfold wf_shape, aresp_of in SHP. cbn [a_form a_error a_frames] in SHP. rewrite map_length in SHP.
+      unfold single_frame. destruct (r_error r) as [e|].
+      * apply Nat.eqb_eq in SHP. destruct (r_frames r); [right; eexists; reflexivity|discriminate].
+      * apply Nat.eqb_eq in SHP. destruct (r_frames r) as [|f fs]; [discriminate|left; eexists; reflexivity].
 Qed.
 
 Lemma drain_idle_frame x rs g st' buf' left r1 rs' f :
@@ -181,14 +227,17 @@ Proof.
   unfold xstep, client_event. rewrite EP. cbn [wants_recv wants_cmd]. rewrite TR. xsimp. rewrite Dwfail, EP.
   cbn [cstep]. rewrite SF. unfold events_of.
   rewrite route_events by (xsimp; exact Devq). cbn [route_all route]. xsimp. rewrite Dwp.
-  rewrite on_exit_alive by (xsimp; discriminate).
-  eexists. eexists. split; [reflexivity|]. exists rs'. rewrite ER in Ds2cwf. split; [|split; [|split]].
+  rewrite on_exit_alive by (xsimp; discriminate). rewrite ER in Ds2cwf.
+  finish rs'.
   - constructor; xsimp; try assumption; try reflexivity; try discriminate.
-    + rewrite Dcallers, EP. reflexivity.
+    + rewrite Dids. unfold ids_out. xsimp. rewrite EP. reflexivity.
     + exact (Forall_inv_tail Ds2cwf).
   - unfold dmu. xsimp. rewrite EP, ER. cbn. lia.
   - unfold ids, ev_seg. xsimp. reflexivity.
   - reflexivity.
+  - grows_tac.
+  - reflexivity.
+  - not_exit.
 Qed.
 
 (* a reply that is an error where an idle reply is expected: the loop leaves (ConnectionClosed(InvalidResponse)) *)
@@ -198,34 +247,46 @@ Lemma drain_idle_bad x rs g st' buf' left r1 rs' e :
   exists x' g', xstep x g = Some (x', g') /\ dpost x rs g x' g'.
 Proof.
   intros D EP ER SF TR SC. pose proof D as D'. destr_dinv D'.
+  assert (EI : map fst (x_callers x) = map q_id (x_queue x)) by (rewrite Dids; unfold ids_out; rewrite EP; reflexivity).
   unfold xstep, client_event. rewrite EP. cbn [wants_recv wants_cmd]. rewrite TR. xsimp. rewrite Dwfail, EP.
   cbn [cstep]. rewrite SF. cbn [route_all route]. xsimp. rewrite ?Devq.
-  rewrite on_exit_exited by (xsimp; first [reflexivity|rewrite Dcallers, EP; reflexivity]). xsimp.
-  eexists. eexists. split; [reflexivity|]. exists rs'. rewrite ER in Ds2cwf. split; [|split; [|split]].
-  - constructor; xsimp; try assumption; try reflexivity. exact (Forall_inv_tail Ds2cwf).
+  rewrite on_exit_exited by (xsimp; first [reflexivity|assumption]). xsimp. rewrite ER in Ds2cwf.
+  finish rs'.
+  - constructor; xsimp; try assumption; try reflexivity; try (constructor; fail). exact (Forall_inv_tail Ds2cwf).
   - unfold dmu. xsimp. rewrite EP, ER. cbn. lia.
-  - unfold ids, add_closed. xsimp. rewrite Dcallers, EP. cbn [callers_for held app]. rewrite map_app, !map_map, app_nil_r. reflexivity.
+  - unfold ids, add_closed, add_ev. xsimp. rewrite EI, map_app, !map_map, app_nil_r. reflexivity.
   - reflexivity.
+  - grows_tac.
+  - reflexivity.
+  - by_event CKInvalidResponse.
+Qed.
+
+(* the head caller when a request is held or in flight *)
+Lemma head_caller x rs id : DInv x rs -> ((exists q, x_pt x = PCancel q /\ id = q_id q) \/ x_pt x = PWait id) ->
+  exists k cs, x_callers x = (id, KRaw k) :: cs /\ map fst cs = map q_id (x_queue x) /\ Forall kraw cs.
+Proof.
+  intros D EP. apply callers_head; [|exact (d_kinds _ _ D)]. rewrite (d_ids _ _ D). unfold ids_out.
+  destruct EP as [[q [EP ->]]|EP]; rewrite EP; reflexivity.
 Qed.
 
 Lemma drain_cancel_end x rs g q st' buf' left e :
-  DInv x rs -> x_pt x = PCancel q -> try_receive x = (Some e, set_conn x buf' st' left) -> ending e ->
+  DInv x rs -> x_pt x = PCancel q -> try_receive x = (Some e, set_conn x buf' st' left) -> ending x e ->
   S2C st' buf' left (x_s2c x) rs ->
   exists x' g', xstep x g = Some (x', g') /\ dpost x rs g x' g'.
 Proof.
   intros D EP TR EE SC. pose proof D as D'. destr_dinv D'.
+  destruct (head_caller x rs (q_id q) D (or_introl (ex_intro _ q (conj EP eq_refl)))) as [k [cs [EC [ECS KCS]]]].
   unfold xstep, client_event. rewrite EP. cbn [wants_recv wants_cmd]. rewrite TR. xsimp. rewrite Dwfail, EP.
-  destruct EE as [-> | [pe ->]]; cbn [cstep route_all route]; xsimp;
-    rewrite Dcallers, EP; cbn [callers_for held app map]; unfold ent at 1; cbn [find_caller]; rewrite N.eqb_refl;
-    cbn [caller_result]; xsimp; rewrite Dcallers, EP; cbn [callers_for held app map]; unfold ent at 1;
-    cbn [remove_caller]; rewrite N.eqb_refl;
-    (rewrite on_exit_exited by (xsimp; reflexivity)); xsimp;
-    (eexists; eexists; split; [reflexivity|]); exists rs; (split; [|split; [|split]]);
-    try (constructor; xsimp; try assumption; try reflexivity);
-    try (unfold dmu; xsimp; rewrite EP; cbn; lia);
-    try reflexivity;
-    (unfold ids, add_closed, add_res; xsimp; rewrite Dcallers, EP; cbn [callers_for held app map fst ent];
-     rewrite !map_app, !map_map, app_nil_r, <- app_assoc; reflexivity).
+  destruct EE as [[-> NR] | [pe ->]]; cbn [cstep route_all route]; xsimp;
+    rewrite EC; cbn [find_caller]; rewrite N.eqb_refl; cbn [caller_result]; xsimp; rewrite EC; cbn [remove_caller]; rewrite N.eqb_refl;
+    (rewrite on_exit_exited by (xsimp; first [reflexivity|assumption])); xsimp; finish rs.
+  all: try (match goal with |- DInv _ _ => constructor; xsimp; try assumption; try reflexivity; try (constructor; fail) end).
+  all: try (unfold dmu; xsimp; rewrite EP; cbn; lia).
+  all: try (unfold ids, add_closed, add_res; xsimp; rewrite EC; cbn [map fst]; rewrite ECS, !map_app, !map_map, app_nil_r, <- app_assoc; reflexivity).
+  all: try (match goal with |- @eq _ _ _ => reflexivity end).
+  all: try (match goal with |- grows _ _ => grows_tac end).
+  all: try (intros R _ _; rewrite R in NR; discriminate NR).
+  all: try by_result.
 Qed.
 
 Lemma drain_cancel_frame x rs g q st' buf' left r1 rs' f :
@@ -237,14 +298,17 @@ Proof.
   unfold xstep, client_event. rewrite EP. cbn [wants_recv wants_cmd]. rewrite TR. xsimp. rewrite Dwfail, EP.
   cbn [cstep]. rewrite SF. unfold events_of.
   rewrite route_events by (xsimp; exact Devq). cbn [route_all route]. xsimp. rewrite Dwp.
-  rewrite on_exit_alive by (xsimp; discriminate).
-  eexists. eexists. split; [reflexivity|]. exists rs'. rewrite ER in Ds2cwf. split; [|split; [|split]].
+  rewrite on_exit_alive by (xsimp; discriminate). rewrite ER in Ds2cwf.
+  finish rs'.
   - constructor; xsimp; try assumption; try reflexivity; try discriminate.
-    + rewrite Dcallers, EP. reflexivity.
+    + rewrite Dids. unfold ids_out. xsimp. rewrite EP. reflexivity.
     + exact (Forall_inv_tail Ds2cwf).
   - unfold dmu. xsimp. rewrite EP, ER. cbn. lia.
   - unfold ids, ev_seg. xsimp. reflexivity.
   - reflexivity.
+  - grows_tac.
+  - reflexivity.
+  - not_exit.
 Qed.
 
 Lemma drain_cancel_bad x rs g q st' buf' left r1 rs' e :
@@ -253,18 +317,19 @@ Lemma drain_cancel_bad x rs g q st' buf' left r1 rs' e :
   exists x' g', xstep x g = Some (x', g') /\ dpost x rs g x' g'.
 Proof.
   intros D EP ER SF TR SC. pose proof D as D'. destr_dinv D'.
+  destruct (head_caller x rs (q_id q) D (or_introl (ex_intro _ q (conj EP eq_refl)))) as [k [cs [EC [ECS KCS]]]].
   unfold xstep, client_event. rewrite EP. cbn [wants_recv wants_cmd]. rewrite TR. xsimp. rewrite Dwfail, EP.
   cbn [cstep]. rewrite SF. cbn [route_all route]. xsimp. rewrite ?Devq. xsimp.
-  rewrite Dcallers, EP; cbn [callers_for held app map]; unfold ent at 1; cbn [find_caller]; rewrite N.eqb_refl;
-    cbn [caller_result]; xsimp; rewrite Dcallers, EP; cbn [callers_for held app map]; unfold ent at 1;
-    cbn [remove_caller]; rewrite N.eqb_refl.
-  rewrite on_exit_exited by (xsimp; reflexivity). xsimp.
-  eexists. eexists. split; [reflexivity|]. exists rs'. rewrite ER in Ds2cwf. split; [|split; [|split]].
-  - constructor; xsimp; try assumption; try reflexivity. exact (Forall_inv_tail Ds2cwf).
+  rewrite EC; cbn [find_caller]; rewrite N.eqb_refl; cbn [caller_result]; xsimp; rewrite EC; cbn [remove_caller]; rewrite N.eqb_refl.
+  rewrite on_exit_exited by (xsimp; first [reflexivity|assumption]). xsimp. rewrite ER in Ds2cwf.
+  finish rs'.
+  - constructor; xsimp; try assumption; try reflexivity; try (constructor; fail). exact (Forall_inv_tail Ds2cwf).
   - unfold dmu. xsimp. rewrite EP, ER. cbn. lia.
-  - unfold ids, add_closed, add_res. xsimp. rewrite Dcallers, EP. cbn [callers_for held app map fst ent].
-    rewrite !map_app, !map_map, app_nil_r, <- app_assoc. reflexivity.
+  - unfold ids, add_closed, add_res, add_ev. xsimp. rewrite EC. cbn [map fst]. rewrite ECS, !map_app, !map_map, app_nil_r, <- app_assoc. reflexivity.
   - reflexivity.
+  - grows_tac.
+  - reflexivity.
+  - by_event CKInvalidResponse.
 Qed.
 
 Lemma drain_wait_resp x rs g id st' buf' left r1 rs' :
@@ -273,44 +338,52 @@ Lemma drain_wait_resp x rs g id st' buf' left r1 rs' :
   exists x' g', xstep x g = Some (x', g') /\ dpost x rs g x' g'.
 Proof.
   intros D EP ER TR SC. pose proof D as D'. destr_dinv D'.
+  destruct (head_caller x rs id D (or_intror EP)) as [k [cs [EC [ECS KCS]]]].
   unfold xstep, client_event. rewrite EP. cbn [wants_recv wants_cmd]. rewrite TR. xsimp. rewrite Dwfail, EP.
   cbn [cstep route_all route]. xsimp.
-  rewrite Dcallers, EP. cbn [callers_for find_caller]. rewrite N.eqb_refl. cbn [caller_result]. xsimp.
-  rewrite Dcallers, EP. cbn [callers_for remove_caller]. rewrite N.eqb_refl.
-  rewrite on_exit_alive by (xsimp; discriminate).
-  eexists. eexists. split; [reflexivity|]. exists rs'. rewrite ER in Ds2cwf. split; [|split; [|split]].
-  - constructor; xsimp; try assumption; try reflexivity; try discriminate.
+  rewrite EC; cbn [find_caller]; rewrite N.eqb_refl; cbn [caller_result]; xsimp; rewrite EC; cbn [remove_caller]; rewrite N.eqb_refl.
+  rewrite on_exit_alive by (xsimp; discriminate). rewrite ER in Ds2cwf.
+  finish rs'.
+  - constructor; xsimp; try assumption; try reflexivity; try discriminate; try (unfold ids_out; xsimp; exact ECS).
     exact (Forall_inv_tail Ds2cwf).
   - unfold dmu. xsimp. rewrite EP, ER. cbn. lia.
-  - unfold ids, add_res. xsimp. rewrite Dcallers, EP. cbn [callers_for map fst]. rewrite map_app, <- app_assoc. reflexivity.
+  - unfold ids, add_res. xsimp. rewrite EC. cbn [map fst]. rewrite map_app, <- app_assoc. reflexivity.
   - reflexivity.
+  - grows_tac.
+  - reflexivity.
+  - not_exit.
 Qed.
 
 Lemma drain_wait_end x rs g id st' buf' left e :
-  DInv x rs -> x_pt x = PWait id -> try_receive x = (Some e, set_conn x buf' st' left) -> ending e ->
+  DInv x rs -> x_pt x = PWait id -> try_receive x = (Some e, set_conn x buf' st' left) -> ending x e ->
   S2C st' buf' left (x_s2c x) rs ->
   exists x' g', xstep x g = Some (x', g') /\ dpost x rs g x' g'.
 Proof.
   intros D EP TR EE SC. pose proof D as D'. destr_dinv D'.
+  destruct (head_caller x rs id D (or_intror EP)) as [k [cs [EC [ECS KCS]]]].
   unfold xstep, client_event. rewrite EP. cbn [wants_recv wants_cmd]. rewrite TR. xsimp. rewrite Dwfail, EP.
-  destruct EE as [-> | [pe ->]]; cbn [cstep route_all route]; xsimp;
-    rewrite Dcallers, EP; cbn [callers_for find_caller]; rewrite N.eqb_refl;
-    cbn [caller_result]; xsimp; rewrite Dcallers, EP; cbn [callers_for remove_caller]; rewrite N.eqb_refl.
+  destruct EE as [[-> NR] | [pe ->]]; cbn [cstep route_all route]; xsimp;
+    rewrite EC; cbn [find_caller]; rewrite N.eqb_refl; cbn [caller_result]; xsimp; rewrite EC; cbn [remove_caller]; rewrite N.eqb_refl.
   - (* clean end while waiting: the loop leaves *)
-    rewrite on_exit_exited by (xsimp; reflexivity). xsimp.
-    eexists. eexists. split; [reflexivity|]. exists rs. split; [|split; [|split]].
-    + constructor; xsimp; try assumption; try reflexivity.
+    rewrite on_exit_exited by (xsimp; first [reflexivity|assumption]). xsimp.
+    finish rs.
+    + constructor; xsimp; try assumption; try reflexivity; try (constructor; fail).
     + unfold dmu. xsimp. rewrite EP. cbn. lia.
-    + unfold ids, add_closed, add_res. xsimp. rewrite Dcallers, EP. cbn [callers_for map fst].
-      rewrite !map_app, !map_map, app_nil_r, <- app_assoc. reflexivity.
+    + unfold ids, add_closed, add_res. xsimp. rewrite EC. cbn [map fst]. rewrite ECS, !map_app, !map_map, app_nil_r, <- app_assoc. reflexivity.
     + reflexivity.
+    + grows_tac.
+    + reflexivity.
+    + intros R _ _. rewrite R in NR. discriminate NR.
   - (* an error while waiting: the caller gets it; the loop goes on to the window *)
     rewrite on_exit_alive by (xsimp; discriminate).
-    eexists. eexists. split; [reflexivity|]. exists rs. split; [|split; [|split]].
-    + constructor; xsimp; try assumption; try reflexivity; try discriminate.
+    finish rs.
+    + constructor; xsimp; try assumption; try reflexivity; try discriminate; try (unfold ids_out; xsimp; exact ECS).
     + unfold dmu. xsimp. rewrite EP. cbn. lia.
-    + unfold ids, add_res. xsimp. rewrite Dcallers, EP. cbn [callers_for map fst]. rewrite map_app, <- app_assoc. reflexivity.
+    + unfold ids, add_res. xsimp. rewrite EC. cbn [map fst]. rewrite map_app, <- app_assoc. reflexivity.
     + reflexivity.
+    + grows_tac.
+    + reflexivity.
+    + not_exit.
 Qed.
 
 Lemma drain_window_take x rs g q rest :
@@ -321,12 +394,15 @@ Proof.
   unfold xstep, client_event. rewrite EP. cbn [wants_recv wants_cmd]. rewrite EQ. xsimp. rewrite Dwfail, EP.
   cbn [cstep route_all route]. xsimp. rewrite Dwp.
   rewrite on_exit_alive by (xsimp; discriminate).
-  eexists. eexists. split; [reflexivity|]. exists rs. split; [|split; [|split]].
+  finish rs.
   - constructor; xsimp; try assumption; try reflexivity; try discriminate.
-    rewrite Dcallers, EP, EQ. reflexivity.
+    rewrite Dids. unfold ids_out. xsimp. rewrite EP, EQ. reflexivity.
   - unfold dmu. xsimp. rewrite EP, EQ. cbn. lia.
   - unfold ids. xsimp. reflexivity.
   - reflexivity.
+  - grows_tac.
+  - reflexivity.
+  - not_exit.
 Qed.
 
 Lemma drain_window_timeout x rs g :
@@ -338,12 +414,15 @@ Proof.
   unfold chan_closed. rewrite Dhandle. cbn [negb andb]. rewrite ET. rewrite Dwfail, EP.
   cbn [cstep route_all route]. xsimp. rewrite Dwp.
   rewrite on_exit_alive by (xsimp; discriminate).
-  eexists. eexists. split; [reflexivity|]. exists rs. split; [|split; [|split]].
+  finish rs.
   - constructor; xsimp; try assumption; try reflexivity; try discriminate.
-    rewrite Dcallers, EP, EQ. reflexivity.
+    rewrite Dids. unfold ids_out. xsimp. rewrite EP, EQ. reflexivity.
   - unfold dmu. xsimp. rewrite EP, EQ. cbn. lia.
   - unfold ids. xsimp. reflexivity.
   - reflexivity.
+  - grows_tac.
+  - reflexivity.
+  - not_exit.
 Qed.
 
 (* ---------- one resumption during the drain ---------- *)
@@ -393,25 +472,31 @@ Proof.
   destruct (route_all _ g outs) as [x3 g3]. destruct (on_exit x3 g3) as [x4 g4]. reflexivity.
 Qed.
 
-(* the drain comes to rest with nobody left waiting, and everybody who was waiting resolved once, in order *)
+(* the drain comes to rest with nobody left waiting, everybody who was waiting resolved once, in order; and when reads fail,
+   leaving the loop always tells somebody *)
 Lemma drain_settles : forall f x g rs, DInv x rs -> (dmu x rs < f)%nat ->
   let x' := fst (settle f x g) in let g' := snd (settle f x g) in
   quiet x' /\ x_callers x' = [] /\ map fst (g_res g') = map fst (g_res g) ++ map fst (x_callers x) /\
-  g_panic g' = g_panic g.
+  g_panic g' = g_panic g /\ grows g g' /\
+  (x_rerr x = true -> x_pt x <> PExited -> x_pt x' = PExited -> reported g').
 Proof.
   induction f as [|f IH]; intros x g rs D Hf; [lia|].
   rewrite (settle_unfold_d f x g rs D). pose proof (drain_step x rs g D) as DS.
   destruct (xstep x g) as [[x4 g4]|].
-  - destruct DS as [rs' [D4 [MU [ID PN]]]].
+  - destruct DS as [[rs' [D4 MU]] [ID [PN [GR [RE RP]]]]].
     assert (Hf4 : (dmu x4 rs' < f)%nat) by lia.
-    destruct (IH x4 g4 rs' D4 Hf4) as [Q [C [R P]]]. cbn zeta.
-    split; [exact Q|]. split; [exact C|]. split; [|rewrite P; exact PN].
-    rewrite R. exact ID.
+    destruct (IH x4 g4 rs' D4 Hf4) as [Q [C [R [P [GR' RP']]]]]. cbn zeta in *.
+    split; [exact Q|]. split; [exact C|]. split; [rewrite R; exact ID|]. split; [rewrite P; exact PN|].
+    split; [eapply grows_trans; eassumption|].
+    intros RR NE EX. destruct (x_pt x4) eqn:EP4;
+      try (apply RP'; [rewrite RE; exact RR|discriminate|exact EX]).
+    eapply reported_grows; [exact GR'|]. apply RP; [exact RR|exact NE|reflexivity].
   - cbn [fst snd]. assert (CE : x_callers x = []).
-    { rewrite (d_callers _ _ D). destruct DS as [EP|[EP EQ]]; rewrite EP.
-      - rewrite (d_exited _ _ D EP). reflexivity.
-      - rewrite EQ. reflexivity. }
-    split; [exact DS|]. split; [exact CE|]. rewrite CE. cbn. rewrite app_nil_r. auto.
+    { pose proof (d_ids _ _ D) as DI. unfold ids_out in DI. destruct DS as [EP|[EP EQ]]; rewrite EP in DI.
+      - rewrite (d_exited _ _ D EP) in DI. destruct (x_callers x); [reflexivity|discriminate].
+      - rewrite EQ in DI. destruct (x_callers x); [reflexivity|discriminate]. }
+    split; [exact DS|]. split; [exact CE|]. rewrite CE. cbn. rewrite app_nil_r.
+    split; [reflexivity|]. split; [reflexivity|]. split; [apply grows_refl|]. intros _ NE EX. contradiction.
 Qed.
 
 End Drain.
@@ -420,7 +505,7 @@ End Drain.
 
 Ltac destr_rel HR :=
   destruct HR as [Hh Hclient Hfailed Hspawned Heof Hrerr Hwfail Hhandle Hwp Hwh Hevq Hcf Hpt Hqueue Hcallers Hreqs
-                  Hc2s Hwrites Hidle Hpending Hpwf Hlist Hviol Hreported Hs2cwf Hs2c].
+                  Hc2s Hwrites Hidle Hpending Hpwf Hviol Hreported Hs2cwf Hs2c].
 
 Ltac compute_eqb :=
   repeat match goal with
@@ -428,21 +513,40 @@ Ltac compute_eqb :=
            let v := eval vm_compute in (N.eqb (Npos a) (Npos c)) in change (N.eqb (Npos a) (Npos c)) with v
          end.
 
-Lemma dinv_of_rel cf x s : Rel cf x s -> Inv (echo_reply cf) s ->
+Lemma crel_ids cs qs : Forall2 crel cs qs -> map fst cs = map q_id qs /\ Forall kraw cs.
+Proof.
+  induction 1 as [|c q cs qs [CI CK] _ [IH1 IH2]]; [split; [reflexivity|constructor]|].
+  cbn [map]. rewrite CI, IH1. split; [reflexivity|]. constructor; [|exact IH2].
+  destruct CK as [[E _]|E]; eexists; exact E.
+Qed.
+
+(* the requests whose callers wait, by id, as the executable state sees them *)
+Lemma outstanding_ids_out cf x s : Rel cf x s -> Inv2 (echo_reply cf) s -> map q_id (outstanding s) = ids_out x.
+Proof.
+  intros HR H2. unfold outstanding, ids_out. rewrite (r_pt _ _ _ HR), (r_queue _ _ _ HR), map_app.
+  unfold Inv2 in H2. destruct (a_pt s) eqn:EP; try reflexivity.
+  destruct H2 as [pre [q [E1 [E2 _]]]]. rewrite E1, last_last, E2. reflexivity.
+Qed.
+
+Lemma dinv_of_rel cf x s : Rel cf x s -> Inv (echo_reply cf) s -> Inv2 (echo_reply cf) s ->
   DInv cf (set_flags x true (x_rerr x) (x_wfail x) (x_handle x) (x_evend x)) (a_s2c s).
 Proof.
-  intros HR HI. destr_rel HR. constructor; xsimp; try assumption; try reflexivity.
+  intros HR HI H2. pose proof (outstanding_ids_out cf x s HR H2) as OI. destr_rel HR.
+  destruct (crel_ids _ _ Hcallers) as [CI CK].
+  constructor; xsimp; try assumption; try reflexivity.
   - left. split; [reflexivity|assumption].
-  - rewrite Hcallers, Hpt, Hqueue. reflexivity.
+  - rewrite CI. exact OI.
   - intros EP. exfalso. destruct HI as [SH _]. unfold shape in SH. rewrite <- Hpt, EP in SH. exact SH.
 Qed.
 
-Lemma dinv_of_rel_rerr cf x s : Rel cf x s -> Inv (echo_reply cf) s ->
+Lemma dinv_of_rel_rerr cf x s : Rel cf x s -> Inv (echo_reply cf) s -> Inv2 (echo_reply cf) s ->
   DInv cf (set_flags x (x_eof x) true (x_wfail x) (x_handle x) (x_evend x)) (a_s2c s).
 Proof.
-  intros HR HI. destr_rel HR. constructor; xsimp; try assumption; try reflexivity.
+  intros HR HI H2. pose proof (outstanding_ids_out cf x s HR H2) as OI. destr_rel HR.
+  destruct (crel_ids _ _ Hcallers) as [CI CK].
+  constructor; xsimp; try assumption; try reflexivity.
   - right. reflexivity.
-  - rewrite Hcallers, Hpt, Hqueue. reflexivity.
+  - rewrite CI. exact OI.
   - intros EP. exfalso. destruct HI as [SH _]. unfold shape in SH. rewrite <- Hpt, EP in SH. exact SH.
 Qed.
 
@@ -468,16 +572,13 @@ Qed.
 Lemma outstanding_ids cf x s : Rel cf x s -> Inv (echo_reply cf) s -> Inv2 (echo_reply cf) s ->
   map fst (x_callers x) = map q_id (skipn (length (a_replies s)) (a_issued s)).
 Proof.
-  intros HR HI H2. rewrite (r_callers _ _ _ HR).
-  destruct HI as (_ & _ & _ & _ & _ & FF & _). unfold Inv2 in H2.
+  intros HR HI H2. destruct (crel_ids _ _ (r_callers _ _ _ HR)) as [CI _]. rewrite CI. f_equal.
+  destruct HI as (_ & _ & _ & _ & _ & FF & _). unfold Inv2 in H2. unfold outstanding.
   destruct (a_pt s) eqn:EP;
-    try (rewrite H2, map_length, <- FF, skipn_app, Nat.sub_diag, skipn_all; cbn [skipn app callers_for];
-         rewrite map_map; reflexivity).
-  destruct H2 as [pre [q [E1 [E2 [E3 _]]]]]. rewrite E3, map_length, <- FF, E1, <- app_assoc.
-  rewrite skipn_app, Nat.sub_diag, skipn_all. cbn [skipn app callers_for held map]. rewrite map_map, E2. reflexivity.
+    try (rewrite H2, map_length, <- FF, skipn_app, Nat.sub_diag, skipn_all; cbn [skipn app]; reflexivity).
+  destruct H2 as [pre [q [E1 [E2 [E3 _]]]]]. rewrite E3, map_length, <- FF, E1, <- app_assoc, last_last.
+  rewrite skipn_app, Nat.sub_diag, skipn_all. cbn [skipn app held]. reflexivity.
 Qed.
-
-(* ---------- the theorems: a fault-free session, then the stream ends / every read fails ---------- *)
 
 Lemma label_rerr x :
   apply_label_g x (b "r") =
@@ -511,30 +612,27 @@ Lemma fault_resolves cf labs gls x1 :
   in_fragment cf labs gls ->
   let xf := fst (xrun (xinit cf) labs) in
   let segs := snd (xrun (xinit cf) labs) in
-  (forall sf, Rel cf xf sf -> Inv (echo_reply cf) sf -> DInv cf x1 (a_s2c sf) /\ (dmu x1 (a_s2c sf) < fuel_for x1)%nat) ->
+  (forall sf, Rel cf xf sf -> Inv (echo_reply cf) sf -> Inv2 (echo_reply cf) sf -> DInv cf x1 (a_s2c sf) /\ (dmu x1 (a_s2c sf) < fuel_for x1)%nat) ->
   x_callers x1 = x_callers xf ->
   all_resolved gls segs (fst (settle (fuel_for x1) x1 seg0)) (snd (settle (fuel_for x1) x1 seg0)).
 Proof.
   intros [F2 FG] xf segs HD XC.
-  destruct (exec_refines cf labs gls F2 FG) as [sch [nr [ne [WF [IQ [HR [HI [ER [ED [RS [EV PN]]]]]]]]]]].
+  destruct (exec_refines cf labs gls F2 FG) as [sch [nr [ne [WF [IQ [HR [HI [H2 [ER [ED [EA [RS [EV PN]]]]]]]]]]]]].
   fold xf in HR. fold segs in RS. set (sf := fold_left (LoopSpec.astep (echo_reply cf)) sch a0) in *.
-  cbn [a0 a_replies app] in ER.
-  assert (H2 : Inv2 (echo_reply cf) sf) by (apply inv2_fold; [exact WF|apply inv0|apply inv2_0]).
+  cbn [a0 a_replies app] in ER. change (ansreqs a0) with (@nil request) in EA. cbn [app] in EA.
   assert (ISS : a_issued sf = flat_map issued_of gls).
   { unfold sf. rewrite issued_fold. cbn [a0 a_issued app]. exact IQ. }
-  destruct (HD sf HR HI) as [D MU].
+  destruct (HD sf HR HI H2) as [D MU].
   pose proof (drain_settles cf (fuel_for x1) x1 seg0 (a_s2c sf) D MU) as DS.
   destruct (settle (fuel_for x1) x1 seg0) as [x2 g2]. cbn [fst snd] in *.
-  destruct DS as [Q [C [R P]]]. split; [exact Q|]. split; [exact C|]. split; [|exact P].
+  destruct DS as [Q [C [R [P _]]]]. split; [exact Q|]. split; [exact C|]. split; [|exact P].
   rewrite map_app, R. cbn [seg0 g_res map app]. rewrite XC.
-  rewrite (outstanding_ids cf xf sf HR HI H2), RS, <- ER, ISS.
-  assert (PRE : map fst (map res_text (a_replies sf)) = map q_id (firstn (length (a_replies sf)) (a_issued sf))).
-  { destruct HI as (_ & _ & _ & _ & _ & FF & _). unfold Inv2 in H2. rewrite map_map.
-    destruct (a_pt sf) eqn:EP;
-      try (rewrite H2, map_length, map_map, <- FF, firstn_app, Nat.sub_diag, firstn_all; cbn [firstn]; rewrite app_nil_r; reflexivity).
-    destruct H2 as [pre [q [E1 [_ [E3 _]]]]]. rewrite E3, map_length, map_map, <- FF, E1, <- app_assoc.
-    rewrite firstn_app, Nat.sub_diag, firstn_all. cbn [firstn]. rewrite app_nil_r. reflexivity. }
-  rewrite PRE, ISS, <- map_app, firstn_skipn. reflexivity.
+  rewrite (outstanding_ids cf xf sf HR HI H2), RS, ER, map_length, <- ISS.
+  (* answered requests = the first |nr| issued requests *)
+  destruct (ansreqs_prefix _ sf HI) as [rest E]. rewrite EA in E.
+  assert (PRE : map fst (map (res_text cf) nr) = map q_id (firstn (length nr) (a_issued sf))).
+  { rewrite E, <- prefix_firstn, map_map. reflexivity. }
+  rewrite PRE, <- map_app, firstn_skipn. reflexivity.
 Qed.
 
 Theorem exec_eof_resolves cf labs gls : in_fragment cf labs gls ->
@@ -546,7 +644,7 @@ Proof.
   intros IF xf segs. rewrite label_eof. cbv zeta.
   set (x1 := set_flags xf true (x_rerr xf) (x_wfail xf) (x_handle xf) (x_evend xf)).
   pose proof (fault_resolves cf labs gls x1 IF
-                (fun sf HR HI => conj (dinv_of_rel cf xf sf HR HI) (dmu_bound cf xf sf HR HI)) eq_refl) as FR.
+                (fun sf HR HI H2 => conj (dinv_of_rel cf xf sf HR HI H2) (dmu_bound cf xf sf HR HI)) eq_refl) as FR.
   fold xf segs in FR. destruct (settle (fuel_for x1) x1 seg0) as [x2 g2]. cbn [fst snd] in *.
   exists g2. split; [reflexivity|exact FR].
 Qed.
@@ -560,9 +658,27 @@ Proof.
   intros IF xf segs. rewrite label_rerr. cbv zeta.
   set (x1 := set_flags xf (x_eof xf) true (x_wfail xf) (x_handle xf) (x_evend xf)).
   pose proof (fault_resolves cf labs gls x1 IF
-                (fun sf HR HI => conj (dinv_of_rel_rerr cf xf sf HR HI) (dmu_bound_rerr cf xf sf HR HI)) eq_refl) as FR.
+                (fun sf HR HI H2 => conj (dinv_of_rel_rerr cf xf sf HR HI H2) (dmu_bound_rerr cf xf sf HR HI)) eq_refl) as FR.
   fold xf segs in FR. destruct (settle (fuel_for x1) x1 seg0) as [x2 g2]. cbn [fst snd] in *.
   exists g2. split; [reflexivity|exact FR].
+Qed.
+
+(* when reads fail and the loop leaves, somebody is told: a caller gets the protocol error or the event stream gets
+   ConnectionClosed (when nobody could be told yet — the loop rests in the re-idle window — it has not left) *)
+Theorem exec_rerr_reported cf labs gls : in_fragment cf labs gls ->
+  let xf := fst (xrun (xinit cf) labs) in
+  forall g', snd (apply_label_g xf (b "r")) = Some g' ->
+  x_pt (snd (fst (apply_label_g xf (b "r")))) = PExited -> reported g'.
+Proof.
+  intros [F2 FG] xf. rewrite label_rerr. cbv zeta.
+  set (x1 := set_flags xf (x_eof xf) true (x_wfail xf) (x_handle xf) (x_evend xf)).
+  destruct (exec_refines cf labs gls F2 FG) as [sch [nr [ne [WF [IQ [HR [HI [H2 _]]]]]]]].
+  fold xf in HR. set (sf := fold_left (LoopSpec.astep (echo_reply cf)) sch a0) in *.
+  pose proof (drain_settles cf (fuel_for x1) x1 seg0 (a_s2c sf) (dinv_of_rel_rerr cf xf sf HR HI H2) (dmu_bound_rerr cf xf sf HR HI)) as [_ [_ [_ [_ [_ RP]]]]].
+  destruct (settle (fuel_for x1) x1 seg0) as [x2 g2]. cbn [fst snd] in *.
+  intros g' E EX. injection E as <-. apply RP; [reflexivity| |exact EX].
+  change (x_pt x1) with (x_pt xf). rewrite (r_pt _ _ _ HR). destruct HI as [SH _]. unfold shape in SH.
+  intros EP. rewrite EP in SH. exact SH.
 Qed.
 
 (* non-vacuity: the example session of LoopRefineProofs, cut while request 1 is in flight (its reply is on the way,
